@@ -74,7 +74,7 @@ func (live) Describe() core.EngineInfo {
 		Real:       []string{"goatlang loader, parser, compiler+optimizer, VM (GLOBALFUNC, GLOBALZERO, GLOBALSTRUCT, addMethod, newMethod, Yield), via New/Load/Eval/Call/Set"},
 		Stubs:      []string{"os.DirFS -> SimDisk", "cli.live glue (readline, radovskyb/watcher, goroutines, liveCh) -> session drain with the same behaviour (Load on reload command, Eval otherwise, errors to a stderr sink, drain continues)", "time.Sleep -> Yield + simulated clock", "watcher polling is modelled at generation time: reload events are placed at yields after saves, duplicated, coalesced or delayed"},
 		Assumes:    []string{"entities keep their names and signatures across versions; nothing is removed or re-typed", "a failed load may have applied any part of what it was served (old or served version accepted)", "overlapping loads (a reload landing inside init of a load in progress) leave either version", "a served line that is not byte-identical to a generated line makes its entity unknown until the next clean load"},
-		ProbesWant: []string{"reload_ok", "reload_failed", "reload_depth_1", "reload_depth_2", "reload_depth_3", "fault:torn-save", "fault:spliced-save", "fault:mixed-version-snapshot", "fault:save-during-load", "fault:delete", "obs_d", "obs_fv", "obs_bm", "obs_sf", "obs_im", "obs_iv", "obs_hv", "obs_zv", "obs_sa", "repl_redefine", "set_valued_obs", "reload_identical", "reload_single_file"},
+		ProbesWant: []string{"reload_ok", "reload_failed", "reload_depth_1", "reload_depth_2", "reload_depth_3", "fault:torn-save", "fault:spliced-save", "fault:mixed-version-snapshot", "fault:save-during-load", "fault:delete", "obs_d", "obs_fv", "obs_bm", "obs_sf", "obs_im", "obs_iv", "obs_hv", "obs_zv", "obs_sa", "repl_redefine", "set_valued_obs", "reload_identical", "reload_single_file", "reload_library_alone"},
 	}
 }
 
@@ -101,6 +101,9 @@ func (e live) genReload(r *core.PRNG, w *LiveWorld, ver int, faulty bool) LStep 
 	s := LStep{Kind: "load"}
 	if r.Chance(1, 6) {
 		s = LStep{Kind: "loadfile", File: r.Intn(w.Pkgs[0].NFiles)}
+	} else if len(w.Pkgs) > 1 && r.Chance(1, 7) {
+		// one library package reloaded on its own, its directory spelled in one of several equivalent ways
+		s = LStep{Kind: "loadlib", Pkg: 1 + r.Intn(len(w.Pkgs)-1), Ver: r.Intn(4)}
 	}
 	if faulty && r.Chance(1, 6) {
 		s.Faults = append(s.Faults, core.DiskFault{Op: 1 + r.Intn(25), Kind: core.Pick(r, hsDiskFaultKinds), Arg: r.Intn(80)})
@@ -460,7 +463,7 @@ func (run *liveRun) step(s *LStep, viaYield int) {
 	switch s.Kind {
 	case "save":
 		run.save(s)
-	case "load", "loadfile":
+	case "load", "loadfile", "loadlib":
 		run.load(s, depth)
 	case "repl":
 		run.repl(s, depth)
@@ -742,6 +745,11 @@ func (run *liveRun) load(s *LStep, depth int) {
 		// one file of package main, loaded on its own (Load's file form)
 		arg = run.w.EntFilePath(0, s.File)
 		run.h.C.Inc("reload_single_file")
+	}
+	if s.Kind == "loadlib" && s.Pkg > 0 && s.Pkg < len(run.w.Pkgs) {
+		lp := run.w.Pkgs[s.Pkg].Path
+		arg = []string{lp, "./" + lp, "x/../" + lp, lp + "/."}[s.Ver%4]
+		run.h.C.Inc("reload_library_alone")
 	}
 	err := run.h.Load(arg)
 	opsAtEnd := d.Ops
